@@ -209,8 +209,12 @@ Proof. reflexivity. Qed.
 Lemma max_redirects_exact n t via :
   permits (PMax n) t via = true <-> (Z.of_nat (length via) < n)%Z.
 Proof.
-  cbn [permits]. rewrite negb_true_iff. rewrite Z.geb_leb. rewrite Z.leb_gt. reflexivity.
+  cbn [permits]. unfold max_policy_refuses. rewrite negb_true_iff. rewrite Z.geb_leb. rewrite Z.leb_gt. reflexivity.
 Qed.
+
+Lemma default_is_ten t via :
+  permits PDefault t via = true <-> (length via < 10)%nat.
+Proof. unfold PDefault. rewrite max_redirects_exact. unfold default_redirect_limit. lia. Qed.
 
 Lemma no_redirect_refuses t via : permits PNo t via = false.
 Proof. reflexivity. Qed.
